@@ -248,7 +248,7 @@ def fresh_library(repo):
 
 
 def run_c17(ctx, fa0):
-    tmpdir = tempfile.mkdtemp(prefix="verif_c17_", dir=os.path.join(core.VERIF, ".work"))
+    tmpdir = tempfile.mkdtemp(prefix="verif_c17_", dir=core.tlc.WORK)
     try:
         calls = build_calls(tmpdir)
         names = sorted(calls)
